@@ -89,6 +89,9 @@ func NewCtx(prop, tier string, seed int64, root, replay, only string) (*Ctx, err
 		knownSeen:    map[string]int{},
 		inconclusive: map[string]int{},
 	}
+	if b := os.Getenv("VERIF_BIN"); b != "" {
+		c.BinDir = b
+	}
 	c.Scratch = filepath.Join(root, ".cache", "run", fmt.Sprintf("%s-%d-%d", prop, os.Getpid(), time.Now().UnixNano()))
 	if err := os.MkdirAll(c.Scratch, 0o755); err != nil {
 		return nil, err
@@ -341,8 +344,13 @@ func (c *Ctx) Finish(o FinishOpts) int {
 	}
 	if c.Replay == "" && c.Only == "" {
 		data, _ := json.MarshalIndent(ev, "", " ")
-		_ = os.MkdirAll(filepath.Join(c.Root, "evidence"), 0o755)
-		if err := os.WriteFile(filepath.Join(c.Root, "evidence", c.Prop+".json"), data, 0o644); err != nil {
+		evDir := filepath.Join(c.Root, "evidence")
+		if r := os.Getenv("VERIF_REPO"); r != "" && r != "/repo" {
+			// experiments against a mutated scratch copy never touch the committed evidence
+			evDir = filepath.Join(c.Root, ".cache", "evidence-alt")
+		}
+		_ = os.MkdirAll(evDir, 0o755)
+		if err := os.WriteFile(filepath.Join(evDir, c.Prop+".json"), data, 0o644); err != nil {
 			fmt.Fprintf(os.Stderr, "cannot write evidence: %v\n", err)
 		}
 	}
@@ -503,8 +511,12 @@ func PanicSite(stack string) string {
 		if j := strings.LastIndex(file, ":"); j > 0 {
 			file = file[:j] // strip the line number: keys must survive unrelated edits
 		}
-		if j := strings.Index(file, "/repo/"); j >= 0 {
-			file = file[j+len("/repo/"):]
+		repoPrefix := "/repo/"
+		if r := os.Getenv("VERIF_REPO"); r != "" {
+			repoPrefix = strings.TrimSuffix(r, "/") + "/"
+		}
+		if j := strings.Index(file, repoPrefix); j >= 0 {
+			file = file[j+len(repoPrefix):]
 		}
 		return file + ":" + fn
 	}
